@@ -4,7 +4,7 @@ from __future__ import annotations
 from vlib.chdriver import all_of, assume, check, cover, fail, pick, rng
 from vlib.fixtures import CallLog, concrete, mk_host, mk_node, new_sim, quiet, snap
 
-OPS = ["tick", "shutdown", "startup", "reset", "other_request", "ping_in", "ping_out"]
+OPS = ["tick", "shutdown", "startup", "reset", "other_request", "ping_in", "ping_out", "sw_api"]
 NODE_TYPES = ["computer", "server", "switch", "router", "firewall", "wireless-router"]
 STATES = ["ON", "SHUTTING_DOWN", "OFF", "BOOTING"]
 
@@ -22,7 +22,7 @@ ENCODED = [
     "primaite.simulator.network.hardware.base.WiredNetworkInterface.enable/disable/send_frame, Link.transmit_frame",
     "primaite.simulator.core.RequestManager.__call__",
     "HostNode/Router/Switch/Firewall/WirelessRouter.receive_frame, ICMP.ping, ARP, SessionManager (ping_in/ping_out ops)",
-    "Service.start/stop, Application.run/close via Node._start_up_actions/_shut_down_actions",
+    "Service.start/stop, Application.run/close via Node._start_up_actions/_shut_down_actions and called directly (sw_api op); IOSoftware._can_perform_action",
 ]
 ASSUMPTIONS = [
     "SysLog/PacketCapture/AgentLog methods are stubbed to no-ops; f-string rendering of non-symbolic objects uses the "
@@ -199,6 +199,21 @@ def _apply(op: str, ref: Ref, sim, a, b, a_ip, log, wired, ntype: str, t: int) -
         if not pre_on:
             check(not ok, f"ping from a {pre} node succeeded")
             check(log.count("a_send") == 0, f"{pre} node emitted a frame")
+    elif op == "sw_api":
+        # the software's own API (what scripted red agents, install hooks and other software call directly, without
+        # going through the node's request gate): on a node that is not ON it does nothing
+        before_sw = {x.name: x.operating_state.name for x in list(a.services.values()) + list(a.applications.values())}
+        for svc in list(a.services.values()):
+            started = svc.start()
+            if not pre_on:
+                check(not started, f"service {svc.name}.start() succeeded on a {pre} node")
+        for app in list(a.applications.values()):
+            app.run()
+        after_sw = {x.name: x.operating_state.name for x in list(a.services.values()) + list(a.applications.values())}
+        if not pre_on:
+            cover("sw_api_not_on")
+            check(before_sw == after_sw, lambda: f"software was started through its API on a {pre} node: " + str(sorted(k for k in after_sw if after_sw[k] != before_sw.get(k))))
+        check(log.count("a_send") == 0 or pre_on, f"{pre} node emitted a frame")
     st = ref.st
     real = a.operating_state
     check(
@@ -326,7 +341,7 @@ HARNESSES = {
         "fn": power_step,
         "quick": [{"fixed": {"dmax": 2, "ntype": nt}, "timeout": 200} for nt in ("computer", "switch", "firewall")],
         "thorough": [{"fixed": {"dmax": 4, "ntype": nt}, "timeout": 1500} for nt in NODE_TYPES],
-        "cover": ["settled_ON", "settled_OFF", "state_BOOTING", "returned_to_on"],
+        "cover": ["settled_ON", "settled_OFF", "state_BOOTING", "returned_to_on", "sw_api_not_on"],
         "bounds": {
             "quick": "every pre-state in the invariant with countdown/durations 0..2, one op + settle; 3 node types",
             "thorough": "countdown/durations 0..4, all six node types",
